@@ -38,9 +38,15 @@ type subInfoC03 struct {
 // buildC03 makes a cluster with ns normal sub-clusters (+ optionally GSLB_BLACKHOLE), each with
 // 0..NB backends, through the real Init/BackendInit, then puts every backend into an arbitrary state.
 func buildC03() (*BalanceGslb, []subInfoC03) {
-	ns := vrt.Range("subclusters", 1, vrt.Param("NS", 2))
-	nbMax := vrt.Param("NB", 2)
-	withBH := vrt.Choose("blackhole", 2) == 1
+	ns := vrt.Range("subclusters", vrt.Param("NSLO", 1), vrt.Param("NS", 2))
+	nbMin, nbMax := vrt.Param("NBLO", 0), vrt.Param("NB", 2)
+	withBH := false
+	switch vrt.Param("BH", 2) { // 0 never, 1 always, 2 both
+	case 1:
+		withBH = true
+	case 2:
+		withBH = vrt.Choose("blackhole", 2) == 1
+	}
 	names := append([]string{}, subNamesC03[:ns]...)
 	if withBH {
 		names = append(names, "GSLB_BLACKHOLE")
@@ -51,7 +57,10 @@ func buildC03() (*BalanceGslb, []subInfoC03) {
 		w := vrt.Int("subweight")
 		vrt.Assume(w >= -1 && w <= 3)
 		gc[nm] = w
-		nb := vrt.Range("backends", 0, nbMax)
+		nb := nbMax // the blackhole entry always gets backends, so that forwarding to it would be visible
+		if nm != "GSLB_BLACKHOLE" {
+			nb = vrt.Range("backends", nbMin, nbMax)
+		}
 		if nb > 0 {
 			cb[nm] = mkBackendsC03(nm, nb)
 		}
@@ -94,13 +103,22 @@ func VerifC03_subcluster() {
 	vrt.Assert(sub.weight > 0, "C03/first-choice-positive-weight")
 }
 
-// VerifC03_gslb: one Balance call, any retry stage, any mode.
-func VerifC03_gslb() {
+// VerifC03_gslb: one Balance call, any retry stage, any mode (shape parameters from the registry).
+func VerifC03_gslb() { gslbC03() }
+
+// VerifC03_cross: same body, registered with three normal sub-clusters to reach a cross-retry stage
+// that has several candidate sub-clusters.
+func VerifC03_cross() { gslbC03() }
+
+func gslbC03() {
 	bal, infos := buildC03()
 	rm, cr := vrt.Int("retryMax"), vrt.Int("crossRetry")
 	vrt.Assume(rm >= -1 && rm <= 2 && cr >= -1 && cr <= 1)
 	bal.retryMax, bal.crossRetry = rm, cr
-	mode := vrt.Choose("mode", 3) // 0 WRR (smooth), 1 WLC (smooth), 2 session sticky
+	mode := vrt.Param("MODE", -1) // 0 WRR (smooth), 1 WLC (smooth), 2 session sticky, -1 all
+	if mode < 0 {
+		mode = vrt.Choose("mode", 3)
+	}
 	sticky := mode == 2
 	bal.hashConf.SessionSticky = &sticky
 	if mode == 1 {
